@@ -51,6 +51,10 @@ structure Resp where
   aware : Bool := true   -- rq.client_aware when the reply starts: the request has been presented to the application
   reuse : Bool := true   -- at FULL_REPLY_SENT: keepalive = USE_KEEPALIVE ∧ ¬ read_closed ∧ ¬ discard_request
   stopErr : Bool := false -- connection->stop_with_error (automatic error reply; implies ¬ reuse)
+  failEos : Bool := false -- how the content reader ends the body when it fails (`AppAns.err`): `true` = it returns
+                          -- MHD_CONTENT_READER_END_OF_STREAM although less than the declared size has been delivered
+                          -- (known-size, non-chunked replies only: elsewhere END_OF_STREAM defines the content),
+                          -- `false` = MHD_CONTENT_READER_END_WITH_ERROR
   deriving Repr, Inhabited
 
 /-- the `enum MHD_RequestTerminationCode` values the reply path reports -/
@@ -197,6 +201,12 @@ def closeErr (c : Conn) : Conn := { c with st := .closed, bk := c.bk.close .with
 /-- MHD_connection_close_ (…, MHD_REQUEST_TERMINATED_COMPLETED_OK) at the end of a
     close-delimited body -/
 def closeOk (c : Conn) : Conn := { c with st := .done, bk := c.bk.close .completedOk }
+/-- `if (0 > ret)` of try_ready_normal_body (connection.c:1480): the reader ended the body before
+    `total_size`.  Both flavours close the connection (the Content-Length that was announced cannot be
+    met, the connection must not be kept); they differ in the termination code only:
+    END_OF_STREAM ⇒ MHD_connection_close_ (…, COMPLETED_OK), otherwise CONNECTION_CLOSE_ERROR. -/
+def readerTerm (r : Resp) : Term := if r.failEos then .completedOk else .withError
+def closeReader (r : Resp) (c : Conn) : Conn := { c with st := .closed, bk := c.bk.close (readerTerm r) }
 def setFault (c : Conn) : Conn := { c with st := .closed, fault := true, bk := c.bk.close .withError }
 
 /-- `check_write_done` -/
@@ -219,7 +229,7 @@ def tryReadyNormalBody (r : Resp) (c : Conn) (app : AppAns) (allocOk : Bool) : C
   else if c.sf then (c, true)                       -- will use sendfile
   else
     match crcCall r c.rp (min r.bufSize (c.tot - c.rp)) app with
-    | .err => (closeErr { c with tot := c.rp }, false)
+    | .err => (closeReader r { c with tot := c.rp }, false)
     | .eos => (closeOk { c with tot := c.rp }, false)
     | .data 0 => ({ c with ds := c.rp, dz := 0, st := .normalBodyUnready }, false)
     | .data n => ({ c with ds := c.rp, dz := n }, true)
